@@ -323,3 +323,11 @@ def rename_terms(ts, m):
 
 def rename_contract(c, m):
     return {"a": rename_terms(c["a"], m), "g": rename_terms(c["g"], m), "i": [m.get(v, v) for v in c["i"]], "o": [m.get(v, v) for v in c["o"]]}
+
+# the same idea for the names used by the wirings and the Kaykobad pairs
+WIRING_SCHEMES = {
+    "symbols": {"m": "S", "n": "N", "k": "Q", "s": "I", "i1": "e1", "j1": "E2", "o1": "O", "p1": "pi", "i2": "inf", "j2": "nan", "o2": "beta",
+                "p2": "gamma", "f1": "re", "f2": "im", "y1": "x1", "y2": "x10", "y3": "x100", "y4": "x1000", "u1": "u", "u2": "u1", "z": "zeta"},
+    "prefix": {"i1": "i", "j1": "i1", "i2": "i10", "j2": "i11", "o1": "o", "p1": "o1", "o2": "o10", "p2": "o11", "m": "io", "n": "oi", "k": "ioi",
+               "s": "i_", "f1": "o_", "f2": "_o", "y1": "y", "y2": "y1", "y3": "y11", "y4": "y111", "u1": "yu", "u2": "uy", "z": "yy"},
+}
